@@ -71,13 +71,44 @@ class FitterFit(Contract):
 
 @contract
 class ModelsRead(Contract):
+    """Models.read(directory, filters, ...): reads the package configuration and hands ALL its arguments to the
+    reader of the package's format -- _read_version_1 when the configuration has no version (or version 1),
+    _read_version_2 otherwise -- and returns that reader's result.  (The readers themselves: C02.)"""
     name = MODELS + '.read'
-    trusted = ('assumed at the call site in Fitter.__init__ (dispatch on the package version through parfile.read, file I/O); '
-               'the two readers it dispatches to, _read_version_1/2, are under contract separately (C02)')
+    properties = ('C01', 'C02', 'C10')
+    variants = ('v1', 'v2')
+
+    def setup(self, c, variant):
+        from sedvc.interp import ClassVal
+        from sedvc import units
+        c.interp.package_conf = {'name': 'pkg'} if variant == 'v1' else {'name': 'pkg', 'version': 2}
+        self.models = make_models(c, '2d')
+        c.interp.package_models = self.models
+        self.args = dict(directory='MODELDIR', filters=c.list([]), distance_range=Quantity(c.array('distance_range', (2,)), units.BASE['kpc']),
+                         remove_resolved=False, use_memmap=False)
+        return dict(cls=ClassVal(c.interp.repo.find_class(MODELS)), **self.args)
 
     def result(self, c, a):
         m = getattr(c.interp, 'package_models', None)
         return m if m is not None else make_models(c, '2d')
+
+    def raises(self, c, a):
+        return {'Exception': ('may', True)}       # whatever the reader refuses (missing files, apertures below the table)
+
+    def ensures(self, c, a, result, old):
+        if c.mode != 'verify':
+            return {}
+        calls = [e for e in c.st.events if e[0] == 'call' and '_read_version_' in e[1]]
+        want = MODELS + ('._read_version_1' if 'version' not in c.interp.package_conf else '._read_version_2')
+        ok = len(calls) == 1 and calls[0][1] == want
+        out = {'the_reader_of_the_package_format_is_used_once': ok}
+        if ok:
+            b = calls[0][2]
+            keys = ['directory', 'filters', 'distance_range', 'remove_resolved'] + (['use_memmap'] if want.endswith('2') else [])
+            same = lambda x, y: x is y or (isinstance(x, str) and x == y) or (getattr(x, 'addr', 0) == getattr(y, 'addr', 1))
+            out['with_the_arguments_given'] = all(same(b.get(k), self.args[k]) for k in keys)
+            out['and_its_result_is_returned'] = getattr(result, 'addr', 0) == self.models.addr
+        return out
 
 
 @contract
